@@ -774,24 +774,24 @@ func (c *checker) handleViolations(bin string, br *batchResult, extraEnv []strin
 		if cd.hang {
 			// suspected hang: the run alone, twice, each with a limit four orders of
 			// magnitude above a normal run; both must stall in the same operation
-			a := c.execChild(bin, tr, extraEnv, 60*time.Second)
+			a := c.execChild(bin, tr, extraEnv, 120*time.Second)
 			if !a.timedOut && !a.crashed && a.Violation == nil {
 				// it was only slow where it ran (a loaded machine): alone it completes, clean
 				c.incidents = append(c.incidents, fmt.Sprintf("run %d tripped the worker's watchdog but completes normally and clean when re-executed alone", cd.run))
 				continue
 			}
-			b := c.execChild(bin, tr, extraEnv, 60*time.Second)
+			b := c.execChild(bin, tr, extraEnv, 120*time.Second)
 			if a.timedOut && b.timedOut && a.lastStep == b.lastStep && a.inObs == b.inObs && a.lastStep >= 0 && a.lastStep < len(tr.Steps) {
 				st := tr.Steps[a.lastStep]
 				or := propOracles[c.prop]
 				if a.inObs || or&opOracle(st.Op) != 0 || (isSeqOp(st.Op) && or&oAbandon != 0) || c.cfg.crashIsMine {
-					hv := &Violation{Prop: c.prop, Class: "hang", Oracle: "returns-normally", Step: a.lastStep, Detail: fmt.Sprintf("%s(%x,%x) at step %d did not return within 60 s in two separate executions (a normal run takes milliseconds)", st.Op, []byte(st.K), []byte(st.K2), a.lastStep)}
+					hv := &Violation{Prop: c.prop, Class: "hang", Oracle: "returns-normally", Step: a.lastStep, Detail: fmt.Sprintf("%s(%x,%x) at step %d did not return within 120 s in two separate executions (a normal run takes milliseconds)", st.Op, []byte(st.K), []byte(st.K2), a.lastStep)}
 					small := cloneTrace(tr)
 					small.Steps = small.Steps[:a.lastStep+1]
 					rp := filepath.Join(rootDir, "replays", fmt.Sprintf("%s-%s-seed%d-run%d.json", c.prop, br.domain, c.seed, cd.run))
 					os.MkdirAll(filepath.Dir(rp), 0o755)
 					writeJSON(rp, &ReplayFile{Violation: hv, Trace: small, Note: "suspected hang; truncated after the stalling step; replay with ./check " + c.prop + " --replay " + rp})
-					rv := c.execFile(bin, rp, extraEnv, 60*time.Second)
+					rv := c.execFile(bin, rp, extraEnv, 120*time.Second)
 					if rv.timedOut && rv.lastStep == a.lastStep {
 						reported++
 						c.nViol++
@@ -1360,7 +1360,7 @@ func (c *checker) replay(path string) int {
 	}
 	rtimeout := 10 * time.Minute
 	if rf.Violation != nil && rf.Violation.Class == "hang" {
-		rtimeout = 60 * time.Second
+		rtimeout = 120 * time.Second
 	}
 	var cv *childVerdict
 	for a := 0; a < tries; a++ {
